@@ -82,6 +82,11 @@ class Contract:
             env.pop("self", None)
         else:
             env = M.bind_params(interp, st, f.node, args, kwargs, f.mod, f.cls, node)
+        # symbolic module globals of the callee's contract (names in `params` that are not parameters) are those of the caller's contract
+        fparams = {a.arg for a in list(f.node.args.posonlyargs) + list(f.node.args.args) + list(f.node.args.kwonlyargs)}
+        for gname in self.params:
+            if gname not in fparams and gname not in env and gname in st.env:
+                env[gname] = st.env[gname]
         pre_env = dict(env)
         ln = getattr(node, "lineno", "?")
         reg.note_call(interp.ctx, self)
